@@ -5,22 +5,22 @@
 \* rule with its first-legend exception, optgroup[disabled] > option, hidden inputs are no
 \* controls, the iframe boundary, and read-write depending on disabled.
 EXTENDS CssDecl, TLC, Json, SequencesExt
-CONSTANTS MaxNodes, MaxDepth, Rich
+CONSTANTS MaxNodes, MaxDepth, Level     \* Level 0 slim, 1 normal, 2 rich template set
 VARIABLE doc
 
 At(nm, v) == [k |-> nm, ns |-> <<>>, local |-> nm, v |-> v, list |-> FALSE]
 HIDDENUP == <<72,73,68,68,69,78>>                  \* "HIDDEN"
 Dis == At(HsADisabled, <<>>)
 \* container templates and leaf templates: <<name, attributes>>
-ContainerT == { <<HsNFieldset, <<>>>>, <<HsNFieldset, <<Dis>>>>, <<HsNLegend, <<>>>>, <<HsNDiv, <<>>>>,
+ContainerT == { <<HsNFieldset, <<Dis>>>>, <<HsNLegend, <<>>>>, <<HsNDiv, <<>>>>,
                 <<HsNOptgroup, <<Dis>>>>, <<HsNIframe, <<>>>> }
-       \cup (IF Rich THEN { <<HsNOptgroup, <<>>>>, <<HsNSelect, <<>>>> } ELSE {})
+       \cup (IF Level >= 1 THEN { <<HsNFieldset, <<>>>> } ELSE {})
+       \cup (IF Level >= 2 THEN { <<HsNOptgroup, <<>>>>, <<HsNSelect, <<>>>> } ELSE {})
 LeafT == { <<HsNInput, <<>>>>,
-           <<HsNInput, <<At(HsAType, HIDDENUP)>>>>,
-           <<HsNOption, <<>>>>,
-           <<HsNTextarea, <<>>>> }
-   \cup (IF Rich THEN { <<HsNButton, <<Dis>>>>, <<HsNInput, <<At(HsAReadonly, <<>>)>>>>,
-                        <<HsNInput, <<At(HsAType, HsVHidden), Dis>>>> } ELSE {})
+           <<HsNOption, <<>>>> }
+   \cup (IF Level >= 1 THEN { <<HsNInput, <<At(HsAType, HIDDENUP)>>>>, <<HsNTextarea, <<>>>> } ELSE {})
+   \cup (IF Level >= 2 THEN { <<HsNButton, <<Dis>>>>, <<HsNInput, <<At(HsAReadonly, <<>>)>>>>,
+                              <<HsNInput, <<At(HsAType, HsVHidden), Dis>>>> } ELSE {})
 ContainerNames == {t[1] : t \in ContainerT}
 Templates == ContainerT \cup LeafT
 
